@@ -39,6 +39,17 @@ static void run(Ctx& c) {
     World w(sh);
     forest* f = makeForest(w.dom, fs);
     const int n = sh.n();
+    // the variable order is part of the forest's state: one case in three works in a forest with a random order
+    // (mask / iterator positions are LEVELS; level i holds variable getVarByLevel(i))
+    if (n >= 2 && (fs.isMT() || (!rel && fs.isEVP())) && r.chance(1, 3)) {
+        std::vector<int> l2v(size_t(n + 1), 0), perm; for (int i = 1; i <= n; i++) perm.push_back(i);
+        r.shuffle(perm); for (int i = 1; i <= n; i++) l2v[size_t(i)] = perm[size_t(i - 1)];
+        phase("reorder-empty-forest:" + fs.kindStr());
+        try { f->reorderVariables(l2v.data()); c.count("cases_in_reordered_forest"); }
+        catch (MEDDLY::error& e) { if (e.getCode() != error::NOT_IMPLEMENTED) throw; }
+    }
+    std::vector<int> varAt(size_t(n + 1), 0), levelOf(size_t(n + 1), 0);
+    for (int i = 1; i <= n; i++) { varAt[size_t(i)] = f->getVarByLevel(i); levelOf[size_t(varAt[size_t(i)])] = i; }
     int nfun = r.range(1, 4);
     uint64_t sig = 0; bool nontriv = false; std::string desc;
     for (int fi = 0; fi < nfun; fi++) {
@@ -63,8 +74,8 @@ static void run(Ctx& c) {
             minterm mask(f);
             for (int v = 1; v <= n; v++) {
                 int fv = M.from[size_t(v)] < 0 ? DONT_CARE : M.from[size_t(v)];
-                if (!rel) mask.setVar(unsigned(v), fv);
-                else mask.setVars(unsigned(v), fv, M.to[size_t(v)] == -1 ? DONT_CARE : M.to[size_t(v)] == -2 ? DONT_CHANGE : M.to[size_t(v)]);
+                if (!rel) mask.setVar(unsigned(levelOf[size_t(v)]), fv);
+                else mask.setVars(unsigned(levelOf[size_t(v)]), fv, M.to[size_t(v)] == -1 ? DONT_CARE : M.to[size_t(v)] == -2 ? DONT_CHANGE : M.to[size_t(v)]);
             }
             // model: matching non-default points in key order
             std::vector<std::pair<std::vector<int>, size_t>> expect;   // (key, point)
@@ -78,7 +89,7 @@ static void run(Ctx& c) {
                 }
                 if (!ok) continue;
                 std::vector<int> key;
-                for (int v = n; v >= 1; v--) { key.push_back(a[size_t(v)]); if (rel) key.push_back(b[size_t(v)]); }
+                for (int lv = n; lv >= 1; lv--) { int v = varAt[size_t(lv)]; key.push_back(a[size_t(v)]); if (rel) key.push_back(b[size_t(v)]); }
                 expect.emplace_back(key, p);
             }
             std::sort(expect.begin(), expect.end());
@@ -88,7 +99,7 @@ static void run(Ctx& c) {
             std::string mdesc = useMask ? " with mask" : "";
             for (dd_edge::iterator it = e.begin(useMask ? &mask : nullptr); it; ++it, ++k) {
                 const minterm& m = *it;
-                for (int v = 1; v <= n; v++) { a[size_t(v)] = m.from(v); if (rel) { int tv = m.to(v); b[size_t(v)] = (tv == DONT_CHANGE) ? m.from(v) : tv; } }
+                for (int lv = 1; lv <= n; lv++) { int v = varAt[size_t(lv)]; a[size_t(v)] = m.from(lv); if (rel) { int tv = m.to(lv); b[size_t(v)] = (tv == DONT_CHANGE) ? m.from(lv) : tv; } }
                 for (int v = 1; v <= n; v++) if (a[size_t(v)] < 0 || a[size_t(v)] >= sh.sizes[size_t(v)] || (rel && (b[size_t(v)] < 0 || b[size_t(v)] >= sh.sizes[size_t(v)])))
                     throw Violation(kb + ":iterator:value-out-of-range", "iterator" + mdesc + " produced an assignment outside the domain (variable " + tos(v) + ") for " + tableStr(t, 32) + " shape " + sh.str());
                 size_t p = rel ? size_t(sh.encode(a) * w.N + sh.encode(b)) : size_t(sh.encode(a));
